@@ -135,6 +135,7 @@ def run(ctx):
         if (~truth).sum() >= 3:
             prune(ctx, navis, rng, e['vol'], e['world'][~truth], dict(desc, placement='all-outside'))
     several(ctx, navis, rng)
+    several_neuron(ctx, navis, rng)
     snap(ctx, navis, rng)
 
 
@@ -192,6 +193,61 @@ def several(ctx, navis, rng):
                 ctx.violation('in_volume with several volumes raised', dict(kind='several'), res)
             elif set(res) != set(vols) or any(not np.array_equal(np.asarray(res[k], dtype=bool), truth[k]) for k in vols):
                 ctx.violation('with several volumes the answers are not independent / not under the volume\'s own name', dict(kind='several', names=list(vols)))
+
+
+def several_neuron(ctx, navis, rng):
+    """a neuron against several volumes at once, both modes: each answer equals the single-volume answer; and a Volume object that
+    is edited in place after a first query must be answered with its NEW geometry"""
+    for ci in range(ctx.n(8, 60)):
+        f = F.gen_forest(rng, 8, 30, roots=1, lattice=False, zero_edges=False)
+        f['xyz'] = [tuple(float(v) for v in rng.uniform(-20, 20, size=3)) for _ in f['ids']]
+        sk = F.mk_neuron(f, connectors=F.gen_connectors(rng, f, 6))
+        vols = {}
+        for j in range(int(rng.integers(2, 4))):
+            lo = rng.integers(-22, 5, size=3).astype(float); hi = lo + rng.integers(8, 30, size=3)
+            m = boxmesh(lo, hi)
+            vols['v%d' % j] = navis.Volume(m.vertices, m.faces, name='v%d' % j)
+        for mode in ('IN', 'OUT'):
+            single = {k: guarded(navis.in_volume, sk, v, mode=mode, inplace=False) for k, v in vols.items()}
+            for arg_name, arg in (('dict', vols), ('list', list(vols.values()))):
+                st, res = guarded(navis.in_volume, sk, arg, mode=mode, inplace=False)
+                d = dict(kind='neuron-several-volumes', mode=mode, container=arg_name, names=list(vols))
+                ctx.case(('several-neuron', mode, arg_name, ci), nontrivial=True)
+                ctx.count('several-volumes:neuron:' + mode)
+                if st != 'ok':
+                    ctx.violation('in_volume(neuron, several volumes) raised', d, res)
+                    continue
+                for k in vols:
+                    if single[k][0] != 'ok' or k not in res:
+                        ctx.violation('several volumes: an answer is missing / not under the volume\'s own name', d, dict(got=list(res)))
+                        break
+                    a = sorted(int(i) for i in res[k].nodes.node_id.values)
+                    b = sorted(int(i) for i in single[k][1].nodes.node_id.values)
+                    if a != b:
+                        ctx.violation('with several volumes the answer for a volume differs from asking that volume alone (mode %s)' % mode, d, dict(volume=k, together=a, alone=b))
+                        break
+        # ---- a Volume edited in place between two queries
+        pts = rng.uniform(-25, 25, size=(40, 3))
+        lo = rng.integers(-10, 0, size=3).astype(float); hi = lo + rng.integers(6, 14, size=3)
+        m = boxmesh(lo, hi)
+        vol = navis.Volume(m.vertices, m.faces, name='edited')
+        st0, first = guarded(navis.in_volume, pts, vol)
+        how = str(rng.choice(['resize', 'vertices']))
+        if how == 'resize':
+            vol.resize(2, inplace=True)
+        else:
+            vol.vertices = np.asarray(vol.vertices) + np.array([15.0, 0.0, 0.0])
+        fresh = navis.Volume(np.asarray(vol.vertices).copy(), np.asarray(vol.faces).copy(), name='fresh')
+        st1, again = guarded(navis.in_volume, pts, vol)
+        st2, want = guarded(navis.in_volume, pts, fresh)
+        d = dict(kind='volume-edited-in-place', how=how, lo=lo.tolist(), hi=hi.tolist())
+        ctx.case(('edited-volume', how, ci), nontrivial=True)
+        ctx.count('volume-edited:' + how)
+        if st0 != 'ok' or st1 != 'ok' or st2 != 'ok':
+            ctx.violation('in_volume raised for an edited volume', d, again if st1 != 'ok' else want)
+        elif not np.array_equal(np.asarray(again, dtype=bool), np.asarray(want, dtype=bool)):
+            ctx.violation('a Volume edited in place after a first query is answered with its old geometry', d,
+                          dict(n_points=len(pts), differ=int((np.asarray(again, dtype=bool) != np.asarray(want, dtype=bool)).sum())))
 
 
 def snap(ctx, navis, rng):
